@@ -311,15 +311,15 @@ fn healthy(tag: &str, variant: usize) -> ConnSpec {
             split_at(&b, first)
         }
     };
-    ConnSpec { chunks, closes: true, healthy: true, name: format!("healthy{}", variant) }
+    ConnSpec { chunks, closes: true, healthy: true, name: format!("healthy{}", variant), after_ticks: 0, close_after_ticks: 0 }
 }
 
 fn bad_peer(role: &str) -> ConnSpec {
     match role {
-        "idle" => ConnSpec { chunks: vec![], closes: false, healthy: false, name: "idle".into() },
-        "halfopen" => ConnSpec { chunks: vec![b"{\"method\":\"org.verif.t.Ec".to_vec()], closes: true, healthy: false, name: "halfopen".into() },
-        "malformed" => ConnSpec { chunks: vec![b"{\"method\":7}\0{\"method\":\"org.verif.t.Echo\",\"parameters\":{\"v\":\"x\"}}\0".to_vec()], closes: false, healthy: false, name: "malformed".into() },
-        "garbage" => ConnSpec { chunks: vec![b"\xff\xfe\0".to_vec(), b"[[[[\0".to_vec()], closes: false, healthy: false, name: "garbage".into() },
+        "idle" => ConnSpec { chunks: vec![], closes: false, healthy: false, name: "idle".into(), after_ticks: 0, close_after_ticks: 0 },
+        "halfopen" => ConnSpec { chunks: vec![b"{\"method\":\"org.verif.t.Ec".to_vec()], closes: true, healthy: false, name: "halfopen".into(), after_ticks: 0, close_after_ticks: 0 },
+        "malformed" => ConnSpec { chunks: vec![b"{\"method\":7}\0{\"method\":\"org.verif.t.Echo\",\"parameters\":{\"v\":\"x\"}}\0".to_vec()], closes: false, healthy: false, name: "malformed".into(), after_ticks: 0, close_after_ticks: 0 },
+        "garbage" => ConnSpec { chunks: vec![b"\xff\xfe\0".to_vec(), b"[[[[\0".to_vec()], closes: false, healthy: false, name: "garbage".into(), after_ticks: 0, close_after_ticks: 0 },
         _ => panic!("role"),
     }
 }
@@ -428,7 +428,7 @@ fn replay_family(args: &Args, rep: &mut Report, specs: Vec<(String, ListenSpec)>
 }
 
 fn lspec(prop: &str, mode: Mode, initial: usize, max: usize, idle: u64, flag: bool, conns: Vec<ConnSpec>) -> ListenSpec {
-    ListenSpec { initial, max, idle_timeout: idle, flag, conns, mode, extra_ticks: 1, prop: prop.into() }
+    ListenSpec { initial, max, idle_timeout: idle, flag, conns, mode, extra_ticks: 1, prop: prop.into(), flag_after_ticks: Some(0) }
 }
 
 // ---------------------------------------------------------------------------------- C13
@@ -485,31 +485,43 @@ fn c13(args: &Args) -> ! {
 
 fn c15_specs(thorough: bool) -> Vec<(String, ListenSpec)> {
     let mut v = vec![];
-    let short = |t: &str| ConnSpec { chunks: vec![req(Kind::Echo, Flag::None, t)], closes: true, healthy: true, name: "short".into() };
-    let streaming = || {
+    let short = |t: &str, after: usize, close_after: usize| ConnSpec { chunks: vec![req(Kind::Echo, Flag::None, t)], closes: true, healthy: true, name: "short".into(), after_ticks: after, close_after_ticks: close_after };
+    let streaming = |after: usize, close_after: usize| {
         let mut b = req(Kind::Stream2, Flag::More, "");
         b.extend(req(Kind::Echo, Flag::None, "s"));
-        ConnSpec { chunks: split_at(&b, b.len() - 10), closes: true, healthy: true, name: "streaming".into() }
+        ConnSpec { chunks: split_at(&b, b.len() - 10), closes: true, healthy: true, name: "streaming".into(), after_ticks: after, close_after_ticks: close_after }
     };
-    let histories: Vec<(&str, Vec<ConnSpec>)> = vec![
-        ("none", vec![]),
-        ("short", vec![short("a")]),
-        ("short-short", vec![short("a"), short("b")]),
-        ("streaming", vec![streaming()]),
-        ("short-streaming", vec![short("a"), streaming()]),
-    ];
     let pools: Vec<(usize, usize)> = if thorough { vec![(1, 1), (1, 2), (2, 4)] } else { vec![(1, 2)] };
     for idle in [0u64, 1, 2] {
         for flag in [false, true] {
-            if flag && idle == 2 && !thorough {
-                continue;
-            }
-            for (i, m) in &pools {
-                for (hn, h) in &histories {
-                    if !thorough && h.len() > 1 && (idle == 2 || (flag && idle > 0)) {
-                        continue;
+            // one "tick" is wait_time: 100 ms with a flag, idle_timeout s without; the idle deadline is `d` ticks
+            let d: usize = if flag { (idle * 10) as usize } else { 1 };
+            // scripted instants, in ticks: early, mid-period, just before the deadline, across the deadline(s)
+            let arrivals: Vec<usize> = if idle == 0 { vec![0, 2] } else if flag { vec![0, d / 2, d - 1] } else { vec![0] };
+            let closes: Vec<usize> = if idle == 0 { vec![0, 2] } else if flag { vec![0, d + 2] } else { vec![0, 1, 3] };
+            let flags: Vec<Option<usize>> = if !flag { vec![None] } else if idle == 0 { vec![Some(0), Some(1), Some(3)] } else { vec![None, Some(0), Some(d / 2), Some(d + 3)] };
+            for (pi, pm) in &pools {
+                for fl in &flags {
+                    let mk = |name: String, conns: Vec<ConnSpec>| {
+                        let mut sp = lspec("C15", Mode::Stopping, *pi, *pm, idle, flag, conns);
+                        sp.flag_after_ticks = *fl;
+                        (name, sp)
+                    };
+                    let tag = format!("idle{}-flag{}{}-pool{}.{}", idle, flag as u8, fl.map(|t| format!("@{}", t)).unwrap_or_default(), pi, pm);
+                    v.push(mk(format!("{}-none", tag), vec![]));
+                    for a in &arrivals {
+                        for c in &closes {
+                            v.push(mk(format!("{}-short@{}close@{}", tag, a, c), vec![short("a", *a, *c)]));
+                            if thorough || (*a == arrivals[arrivals.len() - 1] && *c == closes[closes.len() - 1]) || (*a == 0 && *c == 0) {
+                                v.push(mk(format!("{}-streaming@{}close@{}", tag, a, c), vec![streaming(*a, *c)]));
+                                v.push(mk(format!("{}-short@0,short@{}close@{}", tag, a, c), vec![short("a", 0, 0), short("b", *a, *c)]));
+                            }
+                            if thorough {
+                                v.push(mk(format!("{}-long@0close@{},short@{}", tag, c, a), vec![short("a", 0, *c), short("b", *a, 0)]));
+                                v.push(mk(format!("{}-short@0,streaming@{}close@{}", tag, a, c), vec![short("a", 0, 0), streaming(*a, *c)]));
+                            }
+                        }
                     }
-                    v.push((format!("idle{}-flag{}-pool{}.{}-{}", idle, flag as u8, i, m, hn), lspec("C15", Mode::Stopping, *i, *m, idle, flag, h.clone())));
                 }
             }
         }
@@ -518,13 +530,13 @@ fn c15_specs(thorough: bool) -> Vec<(String, ListenSpec)> {
 }
 
 fn c15(args: &Args) -> ! {
-    let mut rep = Report::new("C15", "the real listen() loop under the controlled scheduler with a virtual clock (an accept timeout advances the clock by the requested timeout): configurations idle_timeout {0,1,2}s x stop flag {absent,present} x pools x connection histories {none, short, two short, streaming reply in flight, short+streaming}; environment order (connect / deliver / close / set flag / tick) exhaustive at quiescent points, thread-schedule deviations bounded (quick 1, thorough 2); oracle: Timeout only after >= idle_timeout without a new connection and with no accepted connection unfinished at the decision, Ok only after the flag and at the first timeout answer after it, every accepted connection drained with its complete reply stream, socket path removed, never returns with idle_timeout 0 and no flag; non-trivial = distinct complete executions");
+    let mut rep = Report::new("C15", "the real listen() loop under the controlled scheduler with a virtual clock (an accept timeout advances the clock by the requested timeout): configurations idle_timeout {0,1,2}s x stop flag {absent,present} x pools x connection histories {none, short, two short, long-lived + short, streaming reply in flight, short+streaming} with scripted instants (in timeout answers) for arrival {at once, mid-period, just before the deadline}, peer close {at once, across one or several deadlines} and flag {never, at once, mid-period, after the deadline}; every interleaving of listen thread, workers and environment actions within the deviation bound (quick 1, thorough 2) around each scripted timeline; oracle: Timeout only after >= idle_timeout without a new connection and with no accepted connection unfinished at the decision, Ok only after the flag and at the first timeout answer after it, every accepted connection drained with its complete reply stream, socket path removed, never returns with idle_timeout 0 and no flag; non-trivial = distinct complete executions");
     install_hooks();
     let specs = c15_specs(args.thorough());
     if args.replay.is_some() {
         replay_family(args, &mut rep, c15_specs(true), 4000);
     }
-    let fc = FamilyCfg { bound: if args.thorough() { 2 } else { 1 }, stateful: false, env_order_free: true, max_execs: if args.thorough() { 40_000 } else { 1_500 }, horizon: 4000 };
+    let fc = FamilyCfg { bound: if args.thorough() { 2 } else { 1 }, stateful: false, env_order_free: false, max_execs: if args.thorough() { 20_000 } else { 400 }, horizon: 4000 };
     run_family(args, &mut rep, specs, &fc, Duration::from_secs(if args.thorough() { 1500 } else { 45 }));
     rep.finish(args)
 }
@@ -566,7 +578,7 @@ fn c02l_specs(thorough: bool) -> Vec<(String, ListenSpec)> {
                     prev = *c;
                 }
                 chunks.push(s[prev..].to_vec());
-                let conn = ConnSpec { chunks, closes: true, healthy: false, name: "upgrade".into() };
+                let conn = ConnSpec { chunks, closes: true, healthy: false, name: "upgrade".into(), after_ticks: 0, close_after_ticks: 0 };
                 v.push((format!("up-{}-pre{}-cuts{:?}", pn, with_pre as u8, cs), lspec("C02", Mode::Upgrade, 1, 2, 0, false, vec![conn])));
             }
         }
@@ -599,7 +611,7 @@ fn c01l_specs(thorough: bool) -> Vec<(String, ListenSpec)> {
         // every batch split: requests delivered d at a time
         for d in 1..=n {
             let chunks: Vec<Vec<u8>> = reqs.chunks(d).map(|c| seq_bytes(c)).collect();
-            let conn = ConnSpec { chunks, closes: true, healthy: true, name: format!("{:?}", s) };
+            let conn = ConnSpec { chunks, closes: true, healthy: true, name: format!("{:?}", s), after_ticks: 0, close_after_ticks: 0 };
             v.push((format!("seq{:?}-d{}", s, d), lspec("C01", Mode::Independent, 1, 1, 0, false, vec![conn])));
         }
     }
@@ -631,7 +643,7 @@ fn c06l_specs(_thorough: bool) -> Vec<(String, ListenSpec)> {
         ("nul-storm", vec![b"\0\0\0\0".to_vec()]),
     ];
     for (n, chunks) in bad {
-        let a = ConnSpec { chunks, closes: n == "truncated-close", healthy: false, name: n.into() };
+        let a = ConnSpec { chunks, closes: n == "truncated-close", healthy: false, name: n.into(), after_ticks: 0, close_after_ticks: 0 };
         for first_bad in [true, false] {
             let conns = if first_bad { vec![a.clone(), healthy("B", 1)] } else { vec![healthy("B", 1), a.clone()] };
             // a third connection arrives afterwards: the pool must still serve it
